@@ -426,6 +426,22 @@ class NPFacade:
             return out if out.ndim else out.item()
         return real_np.isclose(a, b, rtol=rtol, atol=atol, equal_nan=equal_nan)
 
+    def allclose(self, a, b, rtol=1e-05, atol=1e-08, equal_nan=False):
+        if has_sym(a) or has_sym(b):
+            from .core import AND
+
+            r = self.isclose(a, b, rtol=rtol, atol=atol)
+            items = list(real_np.asarray(r, dtype=object).flat)
+            return AND(*items) if items else True
+        return real_np.allclose(a, b, rtol=rtol, atol=atol, equal_nan=equal_nan)
+
+    def isfinite(self, a, **kw):
+        if has_sym(a):
+            import math as _m
+
+            return _elementwise(lambda x: True if is_sym(x) else _m.isfinite(x), a)
+        return real_np.isfinite(a, **kw)
+
     def clip(self, a, a_min=None, a_max=None, **kw):
         if has_sym(a) or is_sym(a_min) or is_sym(a_max):
             def f(x):
